@@ -694,6 +694,30 @@ fn gen_op(rng: &mut Rng, s: &Session, pool: &[(Syllable, Vec<KeyCode>)], pending
     };
     let choice = rng.weighted(&w);
     if focus {
+        // C07 (F32, repaired): a range whose only phrase is a user phrase - learn one for the last two
+        // syllables of the buffer, open the list on them, remove the phrase while the list is open: the
+        // list becomes empty and must be closed by the call
+        if !selecting && s.ed.is_entering() && rng.chance(1, 30) {
+            let syms = s.ed.symbols();
+            let n = syms.len();
+            if n >= 2 {
+                if let (Some(a), Some(b)) = (syms[n - 2].to_syllable(), syms[n - 1].to_syllable()) {
+                    let key = vec![a, b];
+                    let p = gen_phrase(rng, 2);
+                    let mut seq: Vec<Op> = vec![Op::Learn(key.clone(), p.clone()), Op::Key(End, plain)];
+                    if !s.ed.editor_options().phrase_choice_rearward {
+                        seq.push(Op::Key(Left, plain));
+                        seq.push(Op::Key(Left, plain));
+                    }
+                    seq.push(if rng.chance(1, 2) { Op::StartSel } else { Op::Key(Down, plain) });
+                    seq.push(Op::Unlearn(key, p));
+                    seq.reverse();
+                    let first = seq.pop().unwrap();
+                    pending.extend(seq);
+                    return first;
+                }
+            }
+        }
         // C07 profile: other ways to open a list, symbols with / without a special-symbol category,
         // small choice indices, removal of a candidate that is on display
         match choice {
